@@ -52,6 +52,11 @@ def mk_device(kind, inp=None):
 
     if kind == "mock":
         return MockDevice
+    if kind == "mock_noreuse":
+        # every channel kind of MockDevice (microwave included), each declarable once
+        import dataclasses
+
+        return dataclasses.replace(MockDevice, name="MockNoReuse", reusable_channels=False)
     if kind == "mock_noise":
         # a virtual device that carries a default noise model
         import dataclasses
